@@ -76,4 +76,20 @@ theorem loads_aggregate {R : Type} [AddCommGroup R] (pairs : List (Nat × R)) (j
 example : ∃ br : BranchRow ℝ, br.PL = 0 ∧ br.MDOTINIT = 1 :=
   ⟨{ BranchRow.ofArray (Array.replicate 64 (0 : ℝ)) with PL := 0, MDOTINIT := 1 }, rfl, rfl⟩
 
+/-- **reversal, branch density.** Describing a branch the other way round (ends exchanged, flow flag toggled, same outlet
+    temperature) leaves the mean density the solver and the result extraction use unchanged, for gases and for liquids and
+    for every density / compressibility function (`get_branch_real_density`, generated). -/
+theorem real_density_reverse (b b' : BranchRow ℝ) (nf nt : NodeRow ℝ) (Rho : ℝ → ℝ) (Z : ℝ → ℝ → ℝ)
+    (hT : b'.TOUTINIT = b.TOUTINIT) (hs : b'.FROM_NODE_T_SWITCHED ≠ 0 ↔ b.FROM_NODE_T_SWITCHED = 0) :
+    (realDensityGas b' nt nf Rho Z).rho = (realDensityGas b nf nt Rho Z).rho ∧
+    (realDensityLiquid b' nt nf Rho).rho = (realDensityLiquid b nf nt Rho).rho := by
+  simp only [realDensityGas, realDensityLiquid]
+  kunfold
+  by_cases h : b.FROM_NODE_T_SWITCHED = 0
+  · have h' : b'.FROM_NODE_T_SWITCHED ≠ 0 := hs.2 h
+    simp [h, h', hT]
+  · have h' : b'.FROM_NODE_T_SWITCHED = 0 := by
+      by_contra hc; exact h (hs.1 hc)
+    simp [h, h', hT]
+
 end PPV.Props.C09
